@@ -21,7 +21,7 @@ import (
 
 // caseT is one input.
 type caseT struct {
-	Kind string `json:"kind"` // repr | prog
+	Kind string `json:"kind"` // repr | prog | cplx (complex64/128 conversion of a real constant: real code against the reference only)
 
 	// repr: is the integer constant Value representable in Type (hook on representableConst)
 	Type  string `json:"type,omitempty"`
@@ -31,6 +31,10 @@ type caseT struct {
 	Ctx   string  `json:"ctx,omitempty"`   // var | const | varT | constT | block
 	Expr  *exprT  `json:"expr,omitempty"`  // var/const/varT/constT
 	Block []specT `json:"block,omitempty"` // block
+
+	// Form: how the real program uses the typed declaration `var c0 T = e` ("" as written, "assign": `var c0 T` and an
+	// assignment statement `c0 = e`, "complit": `var c0 = []T{e}[0]`); the model and the reference see the declaration
+	Form string `json:"form,omitempty"`
 }
 
 // outcome is the canonical observable of one case on one side.
@@ -51,7 +55,7 @@ func main() {
 		return
 	}
 	run := common.NewRun("C03")
-	run.Res.Rule = "cases = (integer kind, integer literal) for representableConst — every boundary of every width (min-1, min, max, max+1, ±2^bits, ±(2^bits-1), 2^63.., 2^64..) plus seeded literals up to 2^200 — and generated programs declaring constants from seeded, type-directed expression trees (depth ≤ 6, every constant operator, conversions to every basic type, untyped int/rune/float/bool/string literals up to 2^200 and around the 512-bit limit of the toolchain, shift counts around 512 and 1074, typed zero divisors, typed floating-point shift counts, string(integer expression), comparisons and logical operators) in the contexts var / const / typed var / typed const / const block with iota and implicit repetition; non-trivial = boundary-distance ≤ 1 or magnitude ≥ 2^8 for repr cases, expression of depth ≥ 2 (or block of ≥ 2 specs) for programs; distinct = distinct protocol line"
+	run.Res.Rule = "cases = (integer kind, integer literal) for representableConst — every boundary of every width (min-1, min, max, max+1, ±2^bits, ±(2^bits-1), 2^63.., 2^64..) plus seeded literals up to 2^200 — and generated programs declaring constants from seeded, type-directed expression trees (depth ≤ 6, every constant operator, conversions to every basic type, untyped int/rune/float/bool/string literals up to 2^200 and around the 512-bit limit of the toolchain, shift counts around 512 and 1074, typed zero divisors, typed floating-point shift counts, string(integer expression), comparisons and logical operators; exact constants at, just below and just above the rounding midpoints of float32 and float64 — dyadic rationals as exact decimal literals and as expressions, big integers, long decimal literals — converted to float32 / float64 / complex64 / complex128 and compared by the exact value of the result, i.e. its bit pattern) in the contexts var / const / typed var / typed const / const block with iota and implicit repetition; non-trivial = boundary-distance ≤ 1 or magnitude ≥ 2^8 for repr cases, expression of depth ≥ 2 (or block of ≥ 2 specs) for programs; distinct = distinct protocol line"
 	defer run.Finish()
 	drv, err := common.StartDriver("C03")
 	if err != nil {
@@ -88,6 +92,11 @@ func main() {
 				continue
 			}
 			im, rf := implAll([]caseT{c}, run.Errorf)[0], refOf(c)
+			if c.Kind == "cplx" {
+				run.Res.Known = append(run.Res.Known, common.KnownReplay{ID: f.ID, Status: f.Status, What: f.What, StillFails: !agree(im, rf),
+					Detail: fmt.Sprintf("impl=%s ref=%s", im, rf)})
+				continue
+			}
 			still := !agree(im, rf)
 			if f.Status == "fixed" {
 				// a repaired finding: its class is gone from the classification, the replay input must now lie in
@@ -102,6 +111,32 @@ func main() {
 				Detail: fmt.Sprintf("impl=%s ref=%s", im, rf)})
 		}
 		cases = generate(run)
+	}
+
+	// complex conversions are not modelled: real code against the reference only
+	{
+		var cx, rest []caseT
+		for _, c := range cases {
+			if c.Kind == "cplx" {
+				cx = append(cx, c)
+			} else {
+				rest = append(rest, c)
+			}
+		}
+		cases = rest
+		ims := implAll(cx, run.Errorf)
+		for i, c := range cx {
+			rf := refCplx(c)
+			run.Count("cplx "+c.key(), true)
+			run.Hit("cplx:" + c.Type + ":impl=" + bucket(ims[i]))
+			run.Hit("unmodelled")
+			if !agree(ims[i], rf) {
+				run.Disagree(common.Disagreement{Kind: "impl-vs-ref", Input: c, Impl: ims[i], Ref: rf, Note: c.source()})
+				if os.Getenv("VERIF_C03_DUMP") != "" {
+					fmt.Fprintf(os.Stderr, "DIFF %-60s impl=%-30s ref=%-30s\n", c.source(), ims[i], rf)
+				}
+			}
+		}
 	}
 
 	lines := make([]string, len(cases))
